@@ -188,5 +188,13 @@ def generate_jaqal_value(val):
         or isinstance(val, AnnotatedValue)
     ):
         return val.name
-    elif isinstance(val, float) or isinstance(val, int):
+    elif isinstance(val, float):
+        text = repr(val)
+        mantissa, exp, exponent = text.partition("e")
+        if exp and "." not in mantissa:
+            # The Jaqal grammar requires a decimal point in a floating
+            # point literal, e.g. 1e-06 must be written 1.0e-06.
+            text = f"{mantissa}.0e{exponent}"
+        return text
+    elif isinstance(val, int):
         return str(val)
